@@ -322,6 +322,21 @@ def r_alphaguard(db, rep):
                 unguarded.append(n)
         if not unguarded:
             continue
+        # Bytes read inside a loop can be any byte of the pattern: they must be tested here. Only the byte read first
+        # (the definition that precedes every loop) may instead be fixed by construction at every call site.
+        in_loop = []
+        for n in unguarded:
+            for x in walk(n["idx"]):
+                if x["k"] == "DeclRefExpr" and x.get("dk") == "local":
+                    for d, rhs in reaching_defs(f, x["d"], x):
+                        if derives_from_param(f, rhs, pi) and any(a["k"] in ("WhileStmt", "ForStmt", "DoStmt") for a in f.ancestors(d)):
+                            in_loop.append(n)
+        if in_loop:
+            n = in_loop[0]
+            rep.viol("%s#occ-unchecked-in-loop" % f.qn, f.nloc(n),
+                     "%s indexes occ[] with a pattern byte read inside its scan loop that was not tested with alphabet[] "
+                     "(any byte of the query can arrive here; a byte above every dictionary byte reads past occ)" % f.qn, f.qn)
+            continue
         # not guarded inside: every call site must pass a pattern whose byte at the first-read position is a fixed member of the alphabet
         callers = [(g, c) for g in db.funcs.values() for c in g.calls() if c.get("f") == f.id]
         ok_by_callers = bool(callers)
